@@ -435,7 +435,12 @@ func checkC03(t *testing.T, job *Job, res *Result) {
 	}
 	var scs []*Scenario
 	for _, c := range c03Configs(tier) {
-		scs = append(scs, c03Scenario(c))
+		sc := c03Scenario(c)
+		scs = append(scs, sc)
+		// second default schedule (late clients ahead of the command) for the commands that replace targets
+		if (c.cmd == "redeploy" || c.cmd == "rollout-redeploy") && len(c.late) > 0 && len(c.inflight) > 0 && c.targets == 1 && !c.sick && c.prior == "" {
+			scs = append(scs, withReversed([]*Scenario{sc})[1])
+		}
 	}
 	b := Bounds{D: 2, S: 1, Total: 2}
 	res.Rule = "configurations = command {redeploy, pause, stop, rollout deploy replacing the rollout target (also with requests held by a pause that is lifted afterwards)} x targets {1,2} x in-flight multiset over {done early, done just before the drain deadline, just after, never, upgraded} x late clients {quick, long} (x rollout targets); per configuration every schedule within the deviation bounds; oracle Q1-Q6 of DESIGN.md C03 on target-side logs and virtual time"
